@@ -645,6 +645,7 @@ func Generate(r *rng.R, tier string, n int, emit func(*common.Case)) {
 		sub := cr.U64()
 		cr = rng.New(sub)
 		var in Input
+		in.Warm = cr.Chance(1, 2)
 		switch k := i % 10; {
 		case k < 3: // well-formed atoms
 			in.Kind, in.Stream = "atom", "grammar"
@@ -661,6 +662,17 @@ func Generate(r *rng.R, tier string, n int, emit func(*common.Case)) {
 			in.Text = B(t)
 			if in.Stream == "trailing" {
 				in.AsDep = false
+			}
+			if cr.Chance(1, 5) { // an atom that is well formed for the OTHER switch setting only
+				a := genAtom(cr, false, in.AsDep)
+				if a.Ver != nil {
+					a.Op, a.Glob = 0, false // version without operator: accepted leniently, an error strictly
+					in.Vnr = true
+				} else if !in.AsDep {
+					a2 := genAtom(cr, in.Vnr, true) // USE dependencies where none are allowed
+					a = a2
+				}
+				in.Text, in.Stream = B(a.String()), "crossed"
 			}
 		case k < 8: // well-formed dependency strings
 			in.Kind, in.Stream = "dep", "grammar"
